@@ -240,6 +240,8 @@ def run_case(scn: dict, sched: Optional[dict] = None, want_world: bool = False) 
     else:
         rec.ctl = None
     rec.max_pre_yields = sched.get("pre_yields", 0)
+    if scn.get("config", {}).get("rt_factor") is not None or sched.get("record_vt"):
+        rec.clock = ctl.clock
     rec.lat_rng = random.Random(vsims.H(sched.get("seed", 0), "lat"))
 
     import mosaik.scheduler as msched
@@ -267,6 +269,22 @@ def run_case(scn: dict, sched: Optional[dict] = None, want_world: bool = False) 
                     if cfg.get("rt_factor") is not None:
                         rkw["rt_factor"] = cfg["rt_factor"]
                         rkw["rt_strict"] = bool(cfg.get("rt_strict", False))
+                    # external events (C17): set_event(t) called on the simulator's mosaik proxy at a
+                    # virtual instant tau after the start of run()
+                    for inj in scn.get("inject_events", []):
+                        def fire(inj=inj):
+                            simobj = rec.instances[inj["sid"]]
+                            rec.ev(op="inject", kind="set_event", sid=inj["sid"], t=inj["t"], tau=inj["tau"])
+
+                            async def call():
+                                try:
+                                    await simobj.mosaik.set_event(inj["t"])
+                                    rec.ev(op="inject_ret", sid=inj["sid"], t=inj["t"], ok=True)
+                                except Exception as e:  # noqa: BLE001
+                                    rec.ev(op="inject_ret", sid=inj["sid"], t=inj["t"], ok=False,
+                                           err=f"{type(e).__name__}: {e}"[:200])
+                            loop.create_task(call())
+                        loop.call_at(inj["tau"], fire)
                     world.run(**rkw)
                     trace["outcome"] = {"kind": "ok"}
             except BaseException as e:  # noqa: BLE001
